@@ -495,7 +495,10 @@ func run(sc scenario, propID string) (out runOut) {
 			nonHedge++
 		}
 	}
-	if nonHedge != 1 {
+	// (auto mode: the goroutine of the first attempt may not have reached the function yet when a hedge launched right
+	// after it has already delivered the result -- seen on an oversubscribed machine; it then enters later, as a cancelled
+	// attempt. Exactly one unmarked entry is required once every launched attempt has entered, never more than one.)
+	if nonHedge > 1 || (nonHedge != 1 && len(attempts) >= 1+len(onHedgeAt)) {
 		return fail("first-attempt-marking", "%d attempts are not marked IsHedge, expected exactly 1", nonHedge)
 	}
 	sort.Slice(hedgeEntries, func(i, j int) bool { return hedgeEntries[i].Before(hedgeEntries[j]) })
